@@ -74,7 +74,7 @@ structure PEnvOK (e : Env) : Prop where
   jj : e.jcol ≤ e.jj
   off0 : 0 ≤ e.off
 
-structure Sim (e : Env) (M0 : Int → Int) (n0p n0c : Int) (X : List Int) (ps : St) (cs : ColDfs.St) : Prop where
+structure Sim (e : Env) (M0 : Int → Int) (P0 : List Int) (n0p n0c : Int) (X : List Int) (ps : St) (cs : ColDfs.St) : Prop where
   lsub : ∀ x : Int, 0 ≤ x → x < e.lsub.size → rd cs.lsub x = rd e.lsub x
   nextl : (e.lsub.size : Int) ≤ cs.nextl
   szM : (ps.marker.size : Int) = 3 * e.m
@@ -96,6 +96,7 @@ structure Sim (e : Env) (M0 : Int → Int) (n0p n0c : Int) (X : List Int) (ps : 
   sgnd : (slice ps.segrep 0 ps.nseg).Nodup
   sgrng : ∀ t ∈ slice ps.segrep 0 ps.nseg, 0 ≤ t ∧ t < e.jcol ∧ e.jcol ≤ PanelDfs.m1 e ps t
   szS : e.jcol ≤ ps.segrep.size
+  segpre : slice ps.segrep 0 n0p = P0
 
 /-- the parent of every discovered representative is EMPTY or a discovered representative whose saved
 position lies in its own list -/
@@ -112,7 +113,7 @@ structure Inv (e : Env) (c : Cfg) : Prop where
   xd : rd e.xlsub c.krep ≤ c.xdfs
   P : PInv e c.st
 
-variable {e : Env} {M0 : Int → Int} {n0p n0c : Int}
+variable {e : Env} {M0 : Int → Int} {P0 : List Int} {n0p n0c : Int}
 
 theorem PInv.of_disc {st st' : St} (h : PInv e st) (hd : ∀ t, fnz e st' t ≠ EMPTY ↔ fnz e st t ≠ EMPTY)
     (h2 : st'.parent = st.parent) (h3 : st'.xplore = st.xplore) : PInv e st' := by
@@ -196,8 +197,8 @@ theorem PInv.rootStart {st st' : St} (h : PInv e st) {krep kperm : Int}
 section prim
 variable {X : List Int} {ps : St} {cs : ColDfs.St}
 
-theorem Sim.markRow (h : Sim e M0 n0p n0c X ps cs) {r : Int} (r0 : 0 ≤ r) (r1 : r < e.m) :
-    Sim e M0 n0p n0c X { ps with marker := wr ps.marker r e.jj }
+theorem Sim.markRow (h : Sim e M0 P0 n0p n0c X ps cs) {r : Int} (r0 : 0 ≤ r) (r1 : r < e.m) :
+    Sim e M0 P0 n0p n0c X { ps with marker := wr ps.marker r e.jj }
       { cs with marker := wr cs.marker (2 * e.cenv.m + r) e.cenv.jcol } := by
   have hsz := h.szM
   have hszc := h.szMc
@@ -222,10 +223,10 @@ theorem Sim.markRow (h : Sim e M0 n0p n0c X ps cs) {r : Int} (r0 : 0 ≤ r) (r1 
       obtain ⟨a, b, c⟩ := h.sgrng t ht
       exact ⟨a, b, by rw [hm1 t a]; exact c⟩ }
 
-theorem Sim.append (h : Sim e M0 n0p n0c X ps cs) (row mark : Int) :
-    Sim e M0 n0p n0c X (appendRow ps row) (ColDfs.appendRow e.cenv cs row mark) := by
+theorem Sim.append (h : Sim e M0 P0 n0p n0c X ps cs) (row mark : Int) :
+    Sim e M0 P0 n0p n0c X (appendRow ps row) (ColDfs.appendRow e.cenv cs row mark) := by
   have hnl := h.nextl
-  have key : Sim e M0 n0p n0c X (appendRow ps row) { cs with lsub := wr cs.lsub cs.nextl row, nextl := cs.nextl + 1 } :=
+  have key : Sim e M0 P0 n0p n0c X (appendRow ps row) { cs with lsub := wr cs.lsub cs.nextl row, nextl := cs.nextl + 1 } :=
     { h with
       lsub := fun x x0 x1 => by
         show rd (wr cs.lsub cs.nextl row) x = _
@@ -236,9 +237,9 @@ theorem Sim.append (h : Sim e M0 n0p n0c X ps cs) (row mark : Int) :
   · exact { key with }
   · exact key
 
-theorem Sim.lower (h : Sim e M0 n0p n0c X ps cs) (hE : PEnvOK e) {rep kp myfnz myfnz' : Int} (r0 : 0 ≤ rep) (r1 : rep < e.jcol)
+theorem Sim.lower (h : Sim e M0 P0 n0p n0c X ps cs) (hE : PEnvOK e) {rep kp myfnz myfnz' : Int} (r0 : 0 ≤ rep) (r1 : rep < e.jcol)
     (hmy : myfnz = myfnz') :
-    Sim e M0 n0p n0c X (lowerFnz e ps rep myfnz kp) (ColDfs.lowerFnz cs rep myfnz' kp) := by
+    Sim e M0 P0 n0p n0c X (lowerFnz e ps rep myfnz kp) (ColDfs.lowerFnz cs rep myfnz' kp) := by
   subst hmy
   unfold lowerFnz ColDfs.lowerFnz
   have hjm := hE.jm
@@ -284,8 +285,8 @@ section prim2
 variable {X : List Int} {ps : St} {cs : ColDfs.St}
 
 /-- lines 234-238 against `segrep[nseg++] = krep` of column_dfs -/
-theorem Sim.record (h : Sim e M0 n0p n0c X ps cs) (hE : PEnvOK e) {krep : Int} (k0 : 0 ≤ krep) (k1 : krep < e.jcol) :
-    Sim e M0 n0p n0c (X ++ [krep]) (record e ps krep) { cs with segrep := wr cs.segrep cs.nseg krep, nseg := cs.nseg + 1 } := by
+theorem Sim.record (h : Sim e M0 P0 n0p n0c X ps cs) (hE : PEnvOK e) {krep : Int} (k0 : 0 ≤ krep) (k1 : krep < e.jcol) :
+    Sim e M0 P0 n0p n0c (X ++ [krep]) (record e ps krep) { cs with segrep := wr cs.segrep cs.nseg krep, nseg := cs.nseg + 1 } := by
   have hjj := hE.jj
   have hjm := hE.jm
   have hcn := h.cnseg
@@ -372,7 +373,10 @@ theorem Sim.record (h : Sim e M0 n0p n0c X ps cs) (hE : PEnvOK e) {krep : Int} (
         · rw [mem_singleton] at ht'; subst ht'
           refine ⟨k0, k1, ?_⟩
           rw [hm1' t k0]; simp [hjj]
-      szS := by show _ ≤ ((wr ps.segrep _ _).size : Int); rw [size_wr]; exact h.szS }
+      szS := by show _ ≤ ((wr ps.segrep _ _).size : Int); rw [size_wr]; exact h.szS
+      segpre := by
+        show slice (wr ps.segrep ps.nseg krep) 0 n0p = P0
+        rw [slice_congr (le_refl _) (fun y _ hy => rd_wr_ne (by omega))]; exact h.segpre }
   · have hT' : ¬ (M0 krep < e.jcol ∧ krep ∉ pushNew e.jcol M0 X) := fun hh => hT (htest.mpr hh)
     simp only [hT, if_false]
     have hpn : pushNew e.jcol M0 (X ++ [krep]) = pushNew e.jcol M0 X := by
@@ -427,8 +431,8 @@ theorem PEnvOK.rep (hE : PEnvOK e) {k : Int} (k0 : 0 ≤ k) (k1 : k < e.jcol) :
     k ≤ repOf e.cenv k ∧ repOf e.cenv k < e.jcol ∧ repOf e.cenv (repOf e.cenv k) = repOf e.cenv k := hE.env.rep k k0 k1
 
 theorem rowStep_sim (hE : PEnvOK e) {X : List Int} {pc : Cfg} {cs : ColDfs.St}
-    (hS : Sim e M0 n0p n0c X pc.st cs) (hI : Inv e pc) (hlt : pc.xdfs < pc.maxdfs) :
-    ∃ cs', ColDfs.rowStep e.cenv (cc pc cs) = cc (rowStep e pc) cs' ∧ Sim e M0 n0p n0c X (rowStep e pc).st cs' ∧ Inv e (rowStep e pc) := by
+    (hS : Sim e M0 P0 n0p n0c X pc.st cs) (hI : Inv e pc) (hlt : pc.xdfs < pc.maxdfs) :
+    ∃ cs', ColDfs.rowStep e.cenv (cc pc cs) = cc (rowStep e pc) cs' ∧ Sim e M0 P0 n0p n0c X (rowStep e pc).st cs' ∧ Inv e (rowStep e pc) := by
   obtain ⟨k0, k1, k2⟩ := hI.k0
   obtain ⟨l0, l1, l2, l3⟩ := hE.lists k0 k1 k2
   have hxd := hI.xd
@@ -506,11 +510,11 @@ theorem rowStep_sim (hE : PEnvOK e) {X : List Int} {pc : Cfg} {cs : ColDfs.St}
                 P := hP1.of_disc hd (lowerFnz_parent _ _ _ _ _).1 (lowerFnz_parent _ _ _ _ _).2 }
 
 theorem popStep_sim (hE : PEnvOK e) {X : List Int} {pc : Cfg} {cs : ColDfs.St}
-    (hS : Sim e M0 n0p n0c X pc.st cs) (hI : Inv e pc) :
+    (hS : Sim e M0 P0 n0p n0c X pc.st cs) (hI : Inv e pc) :
     (∃ ps' cs', popStep e pc = .inr ps' ∧ ColDfs.popStep e.cenv (cc pc cs) = .inr cs' ∧
-        Sim e M0 n0p n0c (X ++ [pc.krep]) ps' cs' ∧ PInv e ps') ∨
+        Sim e M0 P0 n0p n0c (X ++ [pc.krep]) ps' cs' ∧ PInv e ps') ∨
     (∃ pc' cs', popStep e pc = .inl pc' ∧ ColDfs.popStep e.cenv (cc pc cs) = .inl (cc pc' cs') ∧
-        Sim e M0 n0p n0c (X ++ [pc.krep]) pc'.st cs' ∧ Inv e pc') := by
+        Sim e M0 P0 n0p n0c (X ++ [pc.krep]) pc'.st cs' ∧ Inv e pc') := by
   obtain ⟨k0, k1, k2⟩ := hI.k0
   have hS' := hS.record hE k0 k1
   obtain ⟨q1, q2, q3⟩ := record_parent e pc.st pc.krep
@@ -538,8 +542,8 @@ theorem popStep_sim (hE : PEnvOK e) {X : List Int} {pc : Cfg} {cs : ColDfs.St}
       rfl
 
 theorem run_sim (hE : PEnvOK e) : ∀ (F : Nat) (X : List Int) (pc : Cfg) (cs cs' : ColDfs.St),
-    Sim e M0 n0p n0c X pc.st cs → Inv e pc → ColDfs.run e.cenv F (cc pc cs) = some cs' →
-    ∃ ps' X', run e F pc = some ps' ∧ Sim e M0 n0p n0c X' ps' cs' ∧ PInv e ps'
+    Sim e M0 P0 n0p n0c X pc.st cs → Inv e pc → ColDfs.run e.cenv F (cc pc cs) = some cs' →
+    ∃ ps' X', run e F pc = some ps' ∧ Sim e M0 P0 n0p n0c X' ps' cs' ∧ PInv e ps'
   | 0, _, _, _, _, _, _, h => by simp [ColDfs.run] at h
   | F + 1, X, pc, cs, cs', hS, hI, h => by
     unfold ColDfs.run ColDfs.step at h
@@ -563,5 +567,96 @@ theorem run_sim (hE : PEnvOK e) : ∀ (F : Nat) (X : List Int) (pc : Cfg) (cs cs
         rw [h1]
         simp only at h ⊢
         exact run_sim hE F _ pc' cs1 cs' hS1 hI1 h
+
+/-! ### one nonzero of the column, the column -/
+
+theorem rootStep_sim (hE : PEnvOK e) {fuel : Nat} {X : List Int} {ps : St} {cs cs' : ColDfs.St} {krow : Int}
+    (hS : Sim e M0 P0 n0p n0c X ps cs) (hP : PInv e ps) (r0 : 0 ≤ krow) (r1 : krow < e.m)
+    (h : ColDfs.rootStep e.cenv fuel cs krow = some cs') :
+    ∃ ps' X', rootStep e fuel ps krow = some ps' ∧ Sim e M0 P0 n0p n0c X' ps' cs' ∧ PInv e ps' := by
+  have hmkiff := hS.mark _ r0 r1
+  have hjm := hE.jm
+  have hoff := hE.off0
+  unfold ColDfs.rootStep at h
+  unfold rootStep
+  by_cases hmk : rd ps.marker krow = e.jj
+  · have hmk' : mk2 e.cenv cs krow = e.cenv.jcol := hmkiff.mp hmk
+    simp only [hmk, hmk', if_true] at h ⊢
+    cases h
+    exact ⟨ps, X, rfl, hS, hP⟩
+  · have hmk' : ¬ mk2 e.cenv cs krow = e.cenv.jcol := fun hh => hmk (hmkiff.mpr hh)
+    simp only [hmk, hmk', if_false] at h ⊢
+    have hS1 := hS.markRow r0 r1
+    have hP1 : PInv e { ps with marker := wr ps.marker krow e.jj } := hP.of_disc (fun _ => Iff.rfl) rfl rfl
+    by_cases hp : rd e.perm_r krow = EMPTY
+    · have hp' : rd e.cenv.perm_r krow = EMPTY := hp
+      simp only [hp, hp', if_true] at h ⊢
+      cases h
+      exact ⟨_, X, rfl, hS1.append _ _, hP1.of_disc (fun _ => Iff.rfl) rfl rfl⟩
+    · have hp' : ¬ rd e.cenv.perm_r krow = EMPTY := hp
+      simp only [hp, hp', if_false] at h ⊢
+      have hpr : 0 ≤ rd e.perm_r krow ∧ rd e.perm_r krow < e.jcol := by
+        rcases hE.perm r0 r1 with hh | hh
+        · exact absurd hh hp
+        · exact hh
+      obtain ⟨q1, q2, q3⟩ := hE.rep hpr.1 hpr.2
+      have hc0 : 0 ≤ repOf e.cenv (rd e.perm_r krow) := by omega
+      have hf := hS.fnz _ hc0 q2
+      by_cases h3 : fnz e ps (repOf e.cenv (rd e.perm_r krow)) = EMPTY
+      · have h3a : fnz e { ps with marker := wr ps.marker krow e.jj } (repOf e.cenv (rd e.perm_r krow)) = EMPTY := h3
+        have h3b : rd ({ cs with marker := wr cs.marker (2 * e.cenv.m + krow) e.cenv.jcol } : ColDfs.St).repfnz
+            (repOf e.cenv (rd e.cenv.perm_r krow)) = EMPTY := by
+          show rd cs.repfnz (repOf e.cenv (rd e.perm_r krow)) = EMPTY
+          rw [← hf]; exact h3
+        simp only [h3a, h3b, ne_eq, not_true_eq_false, if_false] at h ⊢
+        have hS2 : Sim e M0 P0 n0p n0c X { ps with marker := wr ps.marker krow e.jj, parent := wr ps.parent (repOf e.cenv (rd e.perm_r krow)) EMPTY, repfnz := wr ps.repfnz (e.off + repOf e.cenv (rd e.perm_r krow)) (rd e.perm_r krow) } { cs with marker := wr cs.marker (2 * e.cenv.m + krow) e.cenv.jcol, parent := wr cs.parent (repOf e.cenv (rd e.perm_r krow)) EMPTY, repfnz := wr cs.repfnz (repOf e.cenv (rd e.perm_r krow)) (rd e.perm_r krow) } :=
+          { hS1 with
+            szR := by show _ ≤ ((wr ps.repfnz _ _).size : Int); rw [size_wr]; exact hS.szR
+            szRc := by show _ ≤ ((wr cs.repfnz _ _).size : Int); rw [size_wr]; exact hS.szRc
+            fnz := fun s s0 s1 => by
+              by_cases hs : s = repOf e.cenv (rd e.perm_r krow)
+              · rw [hs]
+                show rd (wr ps.repfnz (e.off + repOf e.cenv (rd e.perm_r krow)) (rd e.perm_r krow)) (e.off + repOf e.cenv (rd e.perm_r krow)) =
+                  rd (wr cs.repfnz (repOf e.cenv (rd e.perm_r krow)) (rd e.perm_r krow)) (repOf e.cenv (rd e.perm_r krow))
+                rw [rd_wr_eq (by omega) (by have := hS.szR; omega), rd_wr_eq hc0 (by have := hS.szRc; omega)]
+              · show rd (wr ps.repfnz (e.off + repOf e.cenv (rd e.perm_r krow)) (rd e.perm_r krow)) (e.off + s) =
+                  rd (wr cs.repfnz (repOf e.cenv (rd e.perm_r krow)) (rd e.perm_r krow)) s
+                rw [rd_wr_ne (by omega), rd_wr_ne hs]; exact hS.fnz s s0 s1
+            parent := by show wr ps.parent _ _ = wr cs.parent _ _; rw [hS.parent]
+            szP := by show _ ≤ ((wr ps.parent _ _).size : Int); rw [size_wr]; exact hS.szP }
+        have hI2 : Inv e (Cfg.mk (repOf e.cenv (rd e.perm_r krow)) (rd e.xlsub (repOf e.cenv (rd e.perm_r krow))) (rd e.xprune (repOf e.cenv (rd e.perm_r krow))) { ps with marker := wr ps.marker krow e.jj, parent := wr ps.parent (repOf e.cenv (rd e.perm_r krow)) EMPTY, repfnz := wr ps.repfnz (e.off + repOf e.cenv (rd e.perm_r krow)) (rd e.perm_r krow) }) := by
+          refine { k0 := ⟨hc0, q2, q3⟩, kd := ?_, mx := rfl, xd := le_refl _, P := ?_ }
+          · show rd (wr ps.repfnz (e.off + _) _) (e.off + _) ≠ EMPTY
+            rw [rd_wr_eq (by omega) (by have := hS.szR; omega)]; exact hp
+          · exact hP1.rootStart hc0 q2 h3 hS.szP rfl rfl rfl
+        exact run_sim hE fuel X _ _ cs' hS2 hI2 h
+      · have h3a : ¬ fnz e { ps with marker := wr ps.marker krow e.jj } (repOf e.cenv (rd e.perm_r krow)) = EMPTY := h3
+        have h3b : ¬ rd ({ cs with marker := wr cs.marker (2 * e.cenv.m + krow) e.cenv.jcol } : ColDfs.St).repfnz
+            (repOf e.cenv (rd e.cenv.perm_r krow)) = EMPTY := by
+          show ¬ rd cs.repfnz (repOf e.cenv (rd e.perm_r krow)) = EMPTY
+          rw [← hf]; exact h3
+        simp only [h3a, h3b, ne_eq, not_false_eq_true, if_true] at h ⊢
+        cases h
+        refine ⟨_, X, rfl, hS1.lower hE hc0 q2 hf, ?_⟩
+        have hd := fun t => lowerFnz_disc (e := e) (st := { ps with marker := wr ps.marker krow e.jj })
+          (myfnz := fnz e { ps with marker := wr ps.marker krow e.jj } (repOf e.cenv (rd e.perm_r krow))) hp h3 t
+        exact hP1.of_disc hd (lowerFnz_parent _ _ _ _ _).1 (lowerFnz_parent _ _ _ _ _).2
+
+theorem search_sim (hE : PEnvOK e) {fuel : Nat} : ∀ (rows : List Int) (X : List Int) (ps : St) (cs cs' : ColDfs.St),
+    Sim e M0 P0 n0p n0c X ps cs → PInv e ps → (∀ r ∈ rows, 0 ≤ r ∧ r < e.m) →
+    ColDfs.search e.cenv fuel rows cs = some cs' →
+    ∃ ps' X', search e fuel rows ps = some ps' ∧ Sim e M0 P0 n0p n0c X' ps' cs' ∧ PInv e ps'
+  | [], X, ps, cs, cs', hS, hP, _, h => by
+    simp only [ColDfs.search] at h; cases h
+    exact ⟨ps, X, rfl, hS, hP⟩
+  | krow :: rows, X, ps, cs, cs', hS, hP, hr, h => by
+    simp only [ColDfs.search] at h
+    cases h1 : ColDfs.rootStep e.cenv fuel cs krow with
+    | none => rw [h1] at h; simp at h
+    | some cs1 =>
+      rw [h1] at h
+      obtain ⟨ps1, X1, g1, hS1, hP1⟩ := rootStep_sim hE hS hP (hr krow mem_cons_self).1 (hr krow mem_cons_self).2 h1
+      obtain ⟨ps2, X2, g2, hS2, hP2⟩ := search_sim hE rows X1 ps1 cs1 cs' hS1 hP1 (fun r hr' => hr r (mem_cons_of_mem _ hr')) h
+      exact ⟨ps2, X2, by simp only [search, g1]; exact g2, hS2, hP2⟩
 
 end Slu.PanelDfs
